@@ -170,6 +170,11 @@ def make_panel(pspec):
     scale = (n_geos - g) + 0.3 * rng.random()
     sd = pspec['noise'] * (0.4 + 0.4 * g)
     y = scale * walk + rng.normal(0.0, sd, n_days)
+    if pspec.get('early_bump') is not None and g == pspec['early_bump']:
+      # a volatile episode in the first half of the history only (the part an
+      # n_pretest_max shorter than the panel discards)
+      half = n_days // 2
+      y[:half] = y[:half] + scale * 8.0 * np.sin(np.arange(half) * 1.3)
     rows.extend((dates[d], ids[g], float(y[d])) for d in range(n_days))
   n_missing = pspec.get('missing', 0) if n_geos >= 2 else 0
   if n_missing:
@@ -333,6 +338,16 @@ class Case:
     M = self.M
     elig = None if self.elig_df is None else M.GeoEligibility(self.elig_df)
     data = M.Data(self.frame if frame is None else frame, 'response', elig)
+    if self.spec.get('reuse'):
+      # the same data object served an earlier, unconstrained search object
+      # (default pretest window, no constraints): whatever that left behind
+      # in the data object must not leak into this one
+      try:
+        primer = M.MM(data, M.Par(n_test=self.kwargs.get('n_test', 7),
+                                  iroas=self.kwargs.get('iroas', 1.0)))
+        primer.geo_assignments      # installs its geo index in `data`
+      except Exception:  # pylint: disable=broad-except
+        pass
     return M.MM(data, self.par() if par is None else par)
 
   def oracle(self):
@@ -711,7 +726,10 @@ def case_specs(seed, enum_geos, sample_geos, n_sample, pars, reps=1,
       tables = elig_samples(n, rng, n_sample)
     tables = [None] * n_default + tables
     for j, table in enumerate(tables):
-      out.append({'panel': panels[j % len(panels)], 'elig': table,
-                  'par': pars[k % len(pars)]})
+      spec = {'panel': panels[j % len(panels)], 'elig': table,
+              'par': pars[k % len(pars)]}
+      if k % 3 == 2:
+        spec['reuse'] = True      # data object reused after another search
+      out.append(spec)
       k += 1
   return out
